@@ -556,6 +556,9 @@ func ruleSoleWriter(w *World, r *Run, rule string) {
 	if st := storeType(w, "inmemory"); st != nil {
 		if mf := memMapField(mk("preset", "inmemory", 0, st)); mf != nil {
 			ckField = structFieldVar(st, mf.Name)
+			if len(mf.Args) == 1 && mf.Args[0].Kind == "field" && mf.Args[0].Typ != nil {
+				ckField = structFieldVar(mf.Args[0].Typ, mf.Name) // the map inside a helper structure of the store
+			}
 		}
 	}
 	if ckField == nil {
@@ -591,7 +594,7 @@ func ruleSoleWriter(w *World, r *Run, rule string) {
 				case *ssa.Go:
 					cc = &x.Call
 				case *ssa.MapUpdate:
-					if mf, base := mapFieldOf(x.Map); mf != nil && mf == ckField {
+					if mf, base := mapFieldOf(x.Map); mf != nil && sameFieldVar(mf, ckField) {
 						nMap++
 						key := "in-memory checkpoints map | updated only by the compare-and-set"
 						ok := w.onlyReachableFrom(fn, setRoots[pInmem]) || baseIsLocalAlloc(base)
@@ -604,10 +607,16 @@ func ruleSoleWriter(w *World, r *Run, rule string) {
 				name := ""
 				if cc.IsInvoke() {
 					name = canonPersistenceMethod(w, cc.Method)
+					// a query interface of the store's own (satisfied only by *sql.DB / *sql.Tx, directly or through an adapter)
+					if n := ssaCallName(cc); isSQLQuery(n) {
+						name = n
+					} else if isE, _ := isSQLExec(n); isE {
+						name = n
+					}
 				} else if sc := cc.StaticCallee(); sc != nil {
 					name = funcName(sc)
 				} else if bi, ok := cc.Value.(*ssa.Builtin); ok && bi.Name() == "delete" {
-					if mf, _ := mapFieldOf(cc.Args[0]); mf != nil && mf == ckField {
+					if mf, _ := mapFieldOf(cc.Args[0]); mf != nil && sameFieldVar(mf, ckField) {
 						r.Fail(rule, "in-memory checkpoints map | no deletion", w.pos(in.Pos()), "an entry of the in-memory checkpoint map is deleted in "+short(fn.String()))
 					}
 					continue
@@ -954,6 +963,13 @@ func sqlSites(w *World) []sqlSite {
 				} else {
 					// interface method (a local query interface satisfied by *sql.DB/*sql.Tx) or a function value
 					name = "dyn"
+					if call.Call.IsInvoke() {
+						if n := ssaCallName(&call.Call); isSQLQuery(n) {
+							name = n
+						} else if isE, _ := isSQLExec(n); isE {
+							name = n
+						}
+					}
 				}
 				isE, _ := isSQLExec(name)
 				if !(isE || isSQLQuery(name) || name == "dyn") {
@@ -963,7 +979,7 @@ func sqlSites(w *World) []sqlSite {
 					if t, ok := sqlTextSSA(w, fn, a0, 0); ok {
 						if name == "dyn" {
 							up := strings.ToUpper(strings.TrimSpace(t))
-							if !(strings.HasPrefix(up, "SELECT ") || strings.HasPrefix(up, "INSERT ") || strings.HasPrefix(up, "UPDATE ") || strings.HasPrefix(up, "DELETE ")) {
+							if !(strings.HasPrefix(up, "SELECT ") || strings.HasPrefix(up, "INSERT ") || strings.HasPrefix(up, "UPDATE ") || strings.HasPrefix(up, "DELETE ") || strings.HasPrefix(up, "CREATE ")) {
 								break
 							}
 						}
@@ -1272,4 +1288,12 @@ func canonPersistenceMethod(w *World, m *types.Func) string {
 		}
 	}
 	return m.FullName()
+}
+
+// sameFieldVar: the same structure field, also across instantiations of a generic structure.
+func sameFieldVar(a, b *types.Var) bool {
+	if a == nil || b == nil {
+		return false
+	}
+	return a == b || a.Origin() == b.Origin()
 }
